@@ -929,10 +929,12 @@ pub fn roamer(rng: &mut Rng, big: bool) -> String {
                 _ => rng.range(1500, 6000),
             }
         } else {
-            match rng.below(3) {
-                0 => rng.range(1, 8),
-                1 => rng.range(8, 80),
-                _ => rng.range(80, 400),
+            match rng.below(16) {
+                0..=4 => rng.range(1, 8),
+                5..=9 => rng.range(8, 80),
+                10..=14 => rng.range(80, 400),
+                // now and then a tape of a few hundred KiB (growth paths that depend on size)
+                _ => rng.range(20_000, 60_000),
             }
         }
     };
